@@ -287,6 +287,18 @@ channel_write_map(struct channel* self, size_t nbytes)
             goto Finalize;
         end = beg + nbytes;
         if (beg != self->head) {
+            // Wrapping: readers that have consumed everything up to the old
+            // head continue at the beginning of the new lap. Left parked at the
+            // end of the old lap, their bookmarks would keep limiting the
+            // writer to [0,tail) until they read again, even though they
+            // have nothing left to read there.
+            for (uint32_t i = 0; i < self->holds.n; ++i) {
+                if (self->holds.pos[i] == self->head &&
+                    self->holds.cycles[i] == self->cycle) {
+                    self->holds.pos[i] = 0;
+                    self->holds.cycles[i] = self->cycle + 1;
+                }
+            }
             self->high = self->head;
             self->head = beg;
             ++self->cycle;
